@@ -8,8 +8,18 @@
 -/
 import Distill.Proofs.DocFilters
 import Distill.Proofs.Retainer
+import Distill.Gen.Funcs
 namespace Distill.C08
 open Distill
+
+/-- **Tie to the source**: the loop body of `RelevantElements.Process`, as translated from the
+current source on this run, is the step function the model (and `media_iff`) uses. -/
+theorem relevantStep_tie (isContent isText inContent : Bool) :
+    Gen.relevantStep isContent isText inContent = some (relevantStep isContent isText inContent) := by
+  cases isContent <;> cases isText <;> cases inContent <;> rfl
+
+/-- the lead-image threshold in the source is the model's -/
+theorem leadMinScore_tie : Gen.imageMinimumAcceptedScore = some leadMinScore.toNat := by rfl
 
 /-- indices mentioned by tag events -/
 def evIdx : List REv → List Nat
